@@ -1,15 +1,16 @@
 (** correspondence for C11: served metadata (entityID, advertised locations), which handler answers a path, and the exported
     Endpoint methods, against Idp/Router.v *)
-From Saml Require Import Base.Bytes Gen.Facts Gen.Pure Idp.Router Xml.Tree Idp.BuilderTypes Idp.Builder Idp.BuiltDoc.
+From Saml Require Import Base.Bytes Gen.Facts Gen.Pure Idp.Router Xml.Tree Idp.BuilderTypes Idp.Builder Idp.BuiltDoc Core.UrlPath.
 Inductive c11case :=
 | KMeta (id : Z) (k : rconf) (issuer entity : bytes) (locs : list (Z * bytes))   (* 0 SingleSignOn, 1 SingleLogout, 2 AttributeService *)
 | KRoute (id : Z) (k : rconf) (path : bytes) (h : Z)                              (* -1: no route; 0.. = HHealth, HReady, HMetadata, HCert, HCallback, HSSO, HSLO, HAttr *)
 | KEp (id : Z) (path url host rel abs : bytes)
 | KMetaDoc (id : Z) (extra : list (string * dval)) (fn : string) (recv : option dval) (args : list dval) (fresh : list bytes) (obs : xml)
     (* the served metadata document against the translated builders of metadata.go / identityprovider.go and the generated schema *)
+| KUrl (id : Z) (u path : bytes)     (* the path component of an absolute URL: net/url's Parse(u).Path for URLs without percent-escapes *)
 | KDest (id : Z) (attr : bool) (eps : list (bytes * bytes * bytes)) (dest : bytes) (err : option bytes)
     (* the Destination checks (verif hooks) against the functions go2v generates from identityprovider.go: Binding, Location, ResponseLocation per endpoint *).
-Definition c11_id (c : c11case) : Z := match c with KMeta i _ _ _ _ | KRoute i _ _ _ | KEp i _ _ _ _ _ | KMetaDoc i _ _ _ _ _ _ | KDest i _ _ _ _ => i end.
+Definition c11_id (c : c11case) : Z := match c with KMeta i _ _ _ _ | KRoute i _ _ _ | KEp i _ _ _ _ _ | KMetaDoc i _ _ _ _ _ _ | KDest i _ _ _ _ | KUrl i _ _ => i end.
 Definition svc_code (s : service) : Z := match s with SvcSSO => 0 | SvcSLO => 1 | SvcAttr => 2 end.
 Definition h_code (h : option handler) : Z :=
   match h with None => -1 | Some HHealth => 0 | Some HReady => 1 | Some HMetadata => 2 | Some HCert => 3 | Some HCallback => 4 | Some HSSO => 5 | Some HSLO => 6 | Some HAttr => 7 end.
@@ -22,6 +23,7 @@ Definition c11_ok (c : c11case) : bool :=
   | KEp _ path url host rel ab =>
       let e := {| Endpoint_path := path; Endpoint_url := url |} in beq (Endpoint_Relative e) rel && beq (Endpoint_Absolute e host) ab
   | KMetaDoc _ extra fn recv args fresh obs => built_matches_with extra fn recv args fresh [] [] "md.EntityDescriptorType" obs
+  | KUrl _ u path => beq (url_path u) path
   | KDest _ attr eps dest err =>
       let l := map (fun e => {| EndpointType_Binding := fst (fst e); EndpointType_Location := snd (fst e); EndpointType_ResponseLocation := snd e |}) eps in
       let r := if attr then verifyRequestDestinationOfAttrQuery {| AttributeAuthorityDescriptorType_AttributeService := l |} {| AttributeQueryType_Destination := dest |}
